@@ -12,7 +12,10 @@ from . import lexcommon
 TOKEN_ALPHABET = ["(", ")", "{", "}", "[", "]", ";", ",", "=", "*", "#", ":", "?", '"', "'", "\\", "ident", "42", "if", "else",
                   "while", "return", "int", "struct"]
 RUN_CLASSES = {"unmatched": "@", "hash": "#", "splice": "\\\n", "dquote": '"', "squote": "'", "lparen": "(", "backslash": "\\",
-               "star": "*", "lbrace": "{"}
+               "star": "*", "lbrace": "{", "digit": "1", "zero": "0", "nine": "9", "letter": "a", "dot": ".", "exp": "e", "hexx": "x",
+               "space": " ", "tab": "\t", "newline": "\n", "semicolon": ";", "slash": "/", "minus": "-", "plus": "+", "question": "?",
+               "percent": "%", "less": "<", "colon": ":", "amp": "&", "digits": "12", "float": "1.", "hexdigits": "0x1", "fe": "1e"}
+WALL_LIMIT = 20.0      # seconds for one string of <= 15 000 characters (normal: milliseconds)
 RUN_LENGTHS = [1, 2, 3, 4, 5, 6, 7, 8, 9, 10, 99, 100, 101, 999, 1000, 1001, 5000]
 
 
@@ -47,6 +50,10 @@ def lex_total(text):
     except Exception as ex:  # noqa: BLE001
         return f"lexer:diagnostics-unsortable:{type(ex).__name__}", str(ex)
     return None
+
+
+def _lex_total_text(text):
+    return lex_total(text)
 
 
 def trie_task(task):
@@ -179,9 +186,12 @@ def run(tier, seed):
         lst.sort(key=lambda x: (len(x[0]), x[0]))
         s, d = lst[0]
         failures.append(Failure("C05", f"{sig}:{cls}", f"{d}; input {s!r}", {"kind": "lex", "text": s}))
-    for label, text in run_family():
+    fam = list(run_family())
+    fres = explore.pmap_timeout(_lex_total_text, [t for _, t in fam], WALL_LIMIT)
+    for (label, text), r in zip(fam, fres):
         nstr += 1
-        r = lex_total(text)
+        if r == explore.TIMEOUT:
+            r = ("lexer:wall-clock-limit", f"no answer within {WALL_LIMIT:.0f} s (a loop the fuel counter does not see, e.g. inside re)")
         if r:
             cname = label.split(":")[1].split("^")[0]
             n_ = int(label.split("^")[1].split("+")[0].rstrip("y"))
@@ -197,7 +207,8 @@ def run(tier, seed):
     ptasks = [(f, t, "prefix", 1, 0, 1) for f, t in seeds]
     # edits for a fixed set of seeds covering all block kinds
     from . import diffcommon
-    rich = [(e["fname"], e["text"]) for e in diffcommon.enriched()]
+    rich = [(e["fname"], e["text"]) for e in diffcommon.enriched()
+            if e["ids"][0] in (("enriched", "enriched-h", "exprs0") if tier == "quick" else ("enriched", "enriched-h", "exprs0", "exprs1", "enriched-wide"))]
     edit_seeds = rich + [seeds[i] for i in range(0, len(seeds), max(1, len(seeds) // (5 if tier == "quick" else 9)))][: (5 if tier == "quick" else 9)]
     NP = 12
     etasks = [(f, t, "edit2" if (tier == "thorough" or i < 2) else "edit", 2 if tier == "quick" else 1, part, NP)
@@ -264,7 +275,11 @@ def _k0(seed):
 
 def replay(payload):
     if payload["kind"] == "lex":
-        r = lex_total(payload["text"])
+        res = explore.pmap_timeout(_lex_total_text, [payload["text"], "a", "b", "c"], WALL_LIMIT)
+        explore.close_pool()
+        r = res[0]
+        if r == explore.TIMEOUT:
+            return [Failure("C05", "lexer:wall-clock-limit", "no answer within the wall-clock limit", payload)]
         return [Failure("C05", r[0], r[1], payload)] if r else []
     if payload["kind"] == "cli":
         o = progrun.cli_text((payload["fname"], payload["text"], ["--no-colors"]))
